@@ -69,6 +69,8 @@ theorem block_payload_hash (H : Bytes → Bytes) (pred : Bytes) (round : Nat) (o
 example : reduce (fun b => 7 :: b) [[1], [2], [3], [4], [5]] =
     some [7, 7, 7, 7, 1, 7, 2, 7, 7, 3, 7, 4, 7, 7, 7, 5, 7, 5, 7, 7, 5, 7, 5] := by
   rw [reduce_eq_tree _ _ (by simp)]; decide
+-- the mirror also evaluates on its own (not through the theorem): three items, odd count at the leaf level
+example : reduce (fun b => 7 :: b) [[1], [2], [3]] = some [7, 7, 7, 1, 7, 2, 7, 7, 3, 7, 3] := by decide
 example : padPow2 [[1], [2], [3], [4], [5]] = [[1], [2], [3], [4], [5], [5], [5], [5]] := by decide
 example : blockPayloadRaw (fun b => 7 :: b) [9] 258 [] = some [7, 9, 0, 0, 1, 2, 7] := by
   rw [block_payload_hash _ _ _ _ (by omega)]; decide
